@@ -32,7 +32,7 @@ checks = {
    "Every history of importing a wallet whose history is already on chain (gap limit 3, payments to key-chain indexes 0/2/4), single rescan batches of the real asyncImport with the worker's re-queue decision modelled from their results, blocks paying/spending it, reorganisations, deliveries and a restart up to the stated depth, plus a pass over 1003-block chains (rescan spans batches) and a pass that starts after the first batch of a 1000-block rescan and explores reorganisations reaching below the rescan cursor; refusal to select/remove while importing; after completion every wallet is ready, every address with history reachable under the gap rule (independent derivation) is held, and the ledger equals the reference ledger.",
    "§5 C07"),
  "C08": (MC, "histbfs", "explicit-state BFS over two-wallet histories with removal call / removal run / restart / re-import, raw residue scan and survivor ledger oracle",
-   "Every history of two wallets sharing transactions, the removal API call, the background removal run, restarts between them, reorganisations and re-import up to the stated depth; wrong passphrases are refused, after completion no raw database record mentions the removed wallet's id, script hashes or addresses, and the surviving wallet's ledger equals the reference.",
+   "Every history of two wallets sharing transactions, the removal API call, the background removal run, restarts between them, reorganisations and re-import up to the stated depth, a pass in which the removed wallet holds pending records (unconfirmed deposits and payments), and a pass that stops before every commit inside the removal and restarts through the real start-up path; wrong passphrases are refused, after completion no raw database record mentions the removed wallet's id, script hashes or addresses, and the surviving wallet's ledger equals the reference.",
    "§5 C08"),
  "C09": (MC, "histbfs", "explicit-state BFS over relay/confirm/conflict/reorg histories on the real implementation with a reference pending-set model",
    "Every history of relayed transactions (wallet spend with one or two wallet inputs, incoming payment, child, conflict, duplicate while still valid), blocks that confirm them or their conflicts, reorganisations and deliveries up to the stated depth runs on the real follower; in every state the wallet's pending buckets, the read-back of each pending entry, the spent_by_unmined flag of every coin and two automatic-selection probes are compared with a reference pending model, together with the C01 ledger oracle.",
@@ -50,7 +50,7 @@ checks = {
    "For the shortest history of every state of the C01 space up to the base depth, and of a second space with API operations and background steps (mnemonic import, rescan batches, removal call and run, NewAddress, restart), each fallible wallet-database call in turn (and runs of 2/3 consecutive calls) returns an error; an operation that reported failure is repeated once storage works again (the worker's own re-queueing is modelled from what the step returned); afterwards every wallet must be ready or gone, no phantom wallet or skipped/duplicated address may exist, and all ledger queries must equal the reference ledger.",
    "§5 C18"),
  "C19": (MC, "apienum", "exhaustive product of per-parameter domains for every API method in 9 reachable wallet states, under recover, plus malformed relays",
-   "For each of 20 reachable wallet states and each of the 28 request-taking API methods the full product of small per-field domains (derived from the request type by reflection, largest domains trimmed only above the cap) is executed on the real APIServer over the real wallet under recover() with FATAL trapping, followed by a follower liveness probe; 12 malformed relayed transactions per state go to the follower entry point.",
+   "For each of 23 reachable wallet states and each of the 28 request-taking API methods the full product of small per-field domains (derived from the request type by reflection, largest domains trimmed only above the cap) is executed on the real APIServer over the real wallet under recover() with FATAL trapping, followed by a follower liveness probe; 12 malformed relayed transactions per state go to the follower entry point.",
    "§5 C19"),
  "C17": (MC, "schedexplore", "exhaustive placement enumeration of follower commits among a query's database reads on the instrumented real code (controlled scheduler + db seam gates) with a sequential-twin oracle; auxiliary free-running -race pass",
    "For 24 scenarios (4 queries x 6 writers; 17 more in the thorough tier) every placement of the follower's 1-4 block commits (connects, pay+spend, reorgs) among the database reads of WalletBalance, AddressBalance, GetUtxo and AutoCreateRawTransaction is executed on the real code; the answer must equal the answer of the same call run alone at a block boundary inside its window. The data-race clause is covered only by a sampling race-detector pass (auxiliary, not exhaustive).",
